@@ -148,3 +148,28 @@ def linear_events(body):
             elif nm in ("enter_scope", "leave_scope", "remove_last_pop", "replace_last_pop_with_return", "add_constant"):
                 ev.append(nm)
     return ev, straight
+
+
+def num_locals_rule(F, R, fn_name, what):
+    """The frame size of a compiled function / filter is the definition count of its *own* symbol table: it is read
+    between enter_scope and leave_scope (after leave_scope `self.symtab` is the enclosing table again) and it is what
+    CompiledFunction::new receives."""
+    from . import hir as H
+    g = F.fn("compiler::Compiler::" + fn_name)
+    if not R.anchor("compiler::Compiler::" + fn_name, g):
+        return
+    b = H.body_of(g)
+    seq = []
+    for st in b.get("stmts", []):
+        e = st.get("init") if st["k"] == "let" else st.get("e")
+        t = H.render(e) if e is not None else ""
+        if "self.enter_scope()" in t:
+            seq.append("enter")
+        if st["k"] == "let" and st.get("pat", {}).get("name") == "num_locals":
+            seq.append("num_locals" if t == "self.symtab.get_num_definitions()" else "num_locals:" + t[:40])
+        if "self.leave_scope()" in t:
+            seq.append("leave")
+    news = [c for c in H.walk(b) if c.get("k") == "call" and (c.get("callee") or "").endswith("CompiledFunction::new")]
+    arg_ok = len(news) == 1 and H.render(news[0]["args"][1]) == "num_locals"
+    R.ob("frame-size-provenance", what, seq == ["enter", "num_locals", "leave"] and arg_ok,
+         "statement order %s; CompiledFunction::new(_, %s, ..)" % (seq, H.render(news[0]["args"][1]) if news else "?"), F.loc(g))
